@@ -70,6 +70,7 @@ macro_rules! c09_harness {
     ($name:ident, $arch:ty, $rtype:expr) => {
         #[kani::proof]
         #[kani::stub(alloc::fmt::format, stubs::verif_format_stub)]
+        #[kani::stub(crate::file_writer::verify_allocations_message, stubs::verif_empty_string)]
         fn $name() {
             let place: u64 = kani::any();
             let relative_address: u64 = kani::any();
@@ -185,6 +186,7 @@ c09_harness!(c09_loongarch64_relative_relocation_contract, crate::elf_loongarch6
 // vacuity canary: both encodings must be reachable with room in the table
 #[kani::proof]
 #[kani::stub(alloc::fmt::format, stubs::verif_format_stub)]
+#[kani::stub(crate::file_writer::verify_allocations_message, stubs::verif_empty_string)]
 fn c09_canary_both_encodings_reachable() {
     let place: u64 = kani::any();
     let mut relr_arr = [any_relr()];
